@@ -1,6 +1,7 @@
 package lab
 
 import (
+	"encoding/binary"
 	"fmt"
 	"net"
 	"strings"
@@ -171,6 +172,7 @@ func CheckC01(l *Lab, verifDir string) int {
 					c01Reattach(rep, f, l.Pick(4, 30))
 					c01SharedIDAndHostClose(rep, f, l.Pick(4, 30))
 					c01Alternates(rep, f, l.Pick(3, 20))
+					c01ReauthCreates(rep, f)
 				}
 				c01PostGateway(rep, f)
 			}(w)
@@ -545,6 +547,100 @@ func c01Alternates(rep *Report, f *Fixture, n int) {
 			rep.Count("alternate_name_probes", 1)
 			if st == 0 || got > 0 {
 				rep.Violate("C01/connection-without-channel-creation-for-that-host/alternate-names", fmt.Sprintf("channel-create for %s (authorised, not answering) with %s naming 127.0.0.2: status %#x, the listener on 127.0.0.2:%d got %d connection(s)", f.U.Addr(), what, st, f.U.Port, got), nil)
+			}
+		}
+	}
+}
+
+// c01ReauthCreates: [MS-TSGU] lets a tunnel-create packet carry a re-authentication context
+// (fieldsPresent bit 0x2 + 8 bytes naming an existing tunnel). Whatever a gateway makes of it, on a
+// tunnel that already has its channel such a packet is out of order: no success answer, and no second
+// backend connection when tunnel-auth and a channel-create for another allowed host follow.
+func c01ReauthCreates(rep *Report, f *Fixture) {
+	W := 5 * time.Second
+	ck := "irrelevant"
+	if f.Kind == "openid" {
+		ck = f.Cookies[f.H2.Addr()]
+	}
+	ckb := UTF16LE(ck)
+	le64 := func(v uint64) []byte { b := make([]byte, 8); binary.LittleEndian.PutUint64(b, v); return b }
+	sz := func(n int) []byte { b := make([]byte, 2); binary.LittleEndian.PutUint16(b, uint16(n)); return b }
+	hdr := func(fields uint16) []byte {
+		b := make([]byte, 8)
+		binary.LittleEndian.PutUint16(b[4:], fields)
+		return b
+	}
+	cat := func(parts ...[]byte) []byte { var o []byte; for _, p := range parts { o = append(o, p...) }; return o }
+	type variant struct {
+		name string
+		body func(ctx uint64) []byte
+	}
+	variants := []variant{
+		{"fields 0x3, context then cookie", func(c uint64) []byte { return cat(hdr(3), le64(c), sz(len(ckb)), ckb) }},
+		{"fields 0x3, cookie then context", func(c uint64) []byte { return cat(hdr(3), sz(len(ckb)), ckb, le64(c)) }},
+		{"fields 0x2, context only", func(c uint64) []byte { return cat(hdr(2), le64(c)) }},
+	}
+	for _, tr := range Transports() {
+		for _, v := range variants {
+			for _, after := range []int{3, 4} { // after tunnel-auth, after channel-create
+				env := f.Env(tr)
+				env.W = W
+				t, _, err := env.OpenTunnel(NewConnID("ra"))
+				if err != nil || t == nil {
+					rep.Inconclusive(fmt.Sprintf("reauth probe: open: %v", err))
+					continue
+				}
+				steps := [][]byte{f.SymHS(true).Wire, f.SymTC("good", f.H1.Addr()).Wire, f.SymTA().Wire, f.SymCC(f.H1.Addr()).Wire}
+				ok := true
+				tunnelID := uint64(0)
+				for i := 0; i < after; i++ {
+					t.Send(steps[i])
+					if n, _ := t.WaitPackets(i+1, W); n < i+1 {
+						ok = false
+						break
+					}
+					raw := t.Snapshot().Packets[i].Raw
+					if st, _ := LenientStatus(raw); st != 0 {
+						ok = false
+						break
+					}
+					if i == 1 {
+						if r, err := DecodeResponse(raw); err == nil {
+							tunnelID = uint64(r.TunnelID)
+						}
+					}
+				}
+				if !ok {
+					t.Close()
+					rep.Inconclusive("reauth probe: setup")
+					continue
+				}
+				h2Before := len(f.H2.Conns())
+				t.Send(Packet(PktTunnelCreate, v.body(tunnelID)))
+				t.WaitPackets(after+1, 1500*time.Millisecond)
+				snap := t.Snapshot()
+				success := false
+				if len(snap.Packets) > after {
+					st, _ := LenientStatus(snap.Packets[after].Raw)
+					success = st == 0 && snap.Packets[after].Raw.Type == PktTunnelResp
+				}
+				t.Send(f.SymTA().Wire)
+				t.Send(f.SymCC(f.H2.Addr()).Wire)
+				t.WaitEnd(1500*time.Millisecond, false)
+				time.Sleep(100 * time.Millisecond)
+				second := len(f.H2.Conns()) - h2Before
+				snap = t.Snapshot()
+				t.Close()
+				rep.Eval(HashStr("reauth-create", f.Kind, tr, v.name, after, success, second))
+				rep.Count("reauth_create_probes", 1)
+				detail := map[string]any{"trace": snap.Log, "variant": v.name, "after_steps": after, "tunnel_id": tunnelID}
+				if success {
+					rep.Violate("C01/success-response-out-of-order/reauth-tunnel-create/"+tr, fmt.Sprintf("a tunnel-create packet with a re-authentication context (%s, context = tunnel id %d) sent after %d successful steps was answered with success", v.name, tunnelID, after), detail)
+				}
+				if second > 0 {
+					rep.Violate("C01/second-connection-for-one-tunnel/reauth-tunnel-create/"+tr, fmt.Sprintf("after a re-authentication tunnel-create (%s) sent behind %d successful steps, tunnel-auth and a channel-create for %s made the gateway connect there (%d connection(s))", v.name, after, f.H2.Addr(), second), detail)
+				}
+				f.ResetBackends()
 			}
 		}
 	}
